@@ -293,6 +293,7 @@ P = {
     "C22.e": "every root wrapper built while rule parameters may be present receives them",
     "C22.g": "the comment model handed to the parser is refreshed after rule references are resolved",
     "C22.i": "at least one wiring site hands the grammar's Comment rule to the parser under the sole condition that the grammar defines one (no dependence on skipws or on the kind of the current comment model)",
+    "C22.m": "by evaluation of visit_re_match: a grammar regex is built with Arpeggio's default flags (re.MULTILINE, so that $ ends a line comment) whatever ignore_case is",
     "C22.c": "the skipws and ws options of the metamodel are forwarded to the model parser under their own names",
   },
   declined="invariance of the model under inserted whitespace/comments (Arpeggio)",
